@@ -778,8 +778,11 @@ func (s *Sys) Check() []string {
 		for n, c := range got {
 			if w[n] == 0 {
 				st := "unknown"
-				if _, ok := s.byName[n]; ok {
+				if fl, ok := s.byName[n]; ok {
 					st = s.statusName(n)
+					if fl.Spec.Remote != pn {
+						st += ", a link to peer " + fl.Spec.Remote
+					}
 				}
 				k := "gone-link-still-reported/" + obsClass(observer)
 				if obsClass(observer) == "lookup" {
